@@ -44,6 +44,24 @@ theorem C19_duration {b b' : List Stmt} (h : normalizeBody b = .ok b') : durSum 
     rw [durSum_unrollAll]
     exact (normalize_inv.2 b vs hvs).2.1
 
+/-- Stronger than a permutation: the gates executing at any given step `k` appear in the same
+(left-to-right program) order before and after. -/
+theorem C19_schedule_order {b b' : List Stmt} (h : normalizeBody b = .ok b') (t k : Nat) :
+    (timesSeq t b').filter (fun p => p.2 == k) = (timesSeq t b).filter (fun p => p.2 == k) := by
+  unfold normalizeBody at h
+  split at h
+  · cases h
+  · rename_i vs hvs
+    simp at h; subst h
+    rw [timesSeq_unrollAll]
+    exact (normalize_atStep.2 b vs hvs).1 k t
+
+/-- No gate instance is duplicated: if the executions of the input are pairwise distinct, so are those
+of the output (and by `C19_schedule` none is lost). -/
+theorem C19_nodup {b b' : List Stmt} (h : normalizeBody b = .ok b') (t : Nat)
+    (hn : (timesSeq t b).Nodup) : (timesSeq t b').Nodup :=
+  (C19_schedule h t).nodup_iff.2 hn
+
 /-- The same for a single statement (this is what keeps the schedule *inside* a subcircuit block, and
 the block's own length, intact). -/
 theorem C19_schedule_stmt {s v : Stmt} (h : normalize s = .ok v) (t : Nat) :
@@ -91,6 +109,18 @@ theorem C19_frame {b b' : List Stmt} (h : normalizeBody b = .ok b') (d : Nat) :
     simp at h; subst h
     rw [subsList_unrollAll]
     exact (normalize_inv.2 b vs hvs).2.2.2.2.2 d
+
+/-- Every subcircuit block also keeps its time slot: the list `(iters, start step, duration)` of the
+subcircuit blocks is unchanged. -/
+theorem C19_frame_slots {b b' : List Stmt} (h : normalizeBody b = .ok b') (t : Nat) :
+    slotsSeq t b' = slotsSeq t b := by
+  unfold normalizeBody at h
+  split at h
+  · cases h
+  · rename_i vs hvs
+    simp at h; subst h
+    rw [slotsSeq_unrollAll _ _ (normalize_inv.2 b vs hvs).1]
+    exact (normalize_slots.2 b vs hvs).1 t
 
 /-! ## rejection -/
 
@@ -234,6 +264,8 @@ private def ex2' : List Stmt :=
 example : normalizeBody ex2 = .ok ex2' := by decide
 example : subsList 0 ex2 = [(0, 7), (0, 1)] ∧ subsList 0 ex2' = [(0, 7), (0, 1)] := by decide
 example : durSum ex2 = 11 ∧ durSum ex2' = 11 := by decide
+example : slotsSeq 0 ex2 = [(7, 1, 9), (1, 11, 0)] ∧ slotsSeq 0 ex2' = [(7, 1, 9), (1, 11, 0)] := by decide
+example : (timesSeq 0 ex2).Nodup := by decide
 example : (timesSeq 0 ex2).length = 17 := by decide
 example : anyLoopInPar false ex2 = false ∧ anySubInPar false ex2 = false := by decide
 example : normalizeBody ex2' = .ok ex2' := by decide
@@ -254,6 +286,12 @@ end Jaqal.UnitTiming
 
 open Jaqal.UnitTiming in
 #print axioms C19_schedule
+open Jaqal.UnitTiming in
+#print axioms C19_schedule_order
+open Jaqal.UnitTiming in
+#print axioms C19_nodup
+open Jaqal.UnitTiming in
+#print axioms C19_frame_slots
 open Jaqal.UnitTiming in
 #print axioms C19_duration
 open Jaqal.UnitTiming in
